@@ -4,7 +4,7 @@
    `erase` forgets the `external` flag of hyperlinks (which the code loses: finding F10, see the
    `_refuted` statements) and reads the deprecated tag name "emph" as "em". *)
 From Pybtex Require Import Base.Prelude Base.PyChar Base.PyStr Model.RtTypes Model.RichText
-  Spec.Flat Spec.FlatOps Proofs.RichText Proofs.RichSlice Proofs.RichOps.
+  Spec.Flat Spec.FlatOps Proofs.RichText Proofs.RichSlice Proofs.RichOps Proofs.RichEq.
 
 (* len(text) is the number of (character, markup) pairs of the rendering *)
 Theorem len_flat : forall t, rlen t = length (flat t).
@@ -103,6 +103,33 @@ Theorem ops_compose_partial : forall e r, spec e = Some r ->
 Proof. exact ops_compose_e. Qed.
 Print Assumptions ops_compose_partial.
 
+(* equality: texts that compare equal render the same (up to erase), == is reflexive ... *)
+Theorem eq_sound : forall a b, rt_eqb a b = true -> erase (flat a) = erase (flat b).
+Proof. exact eq_sound_lem. Qed.
+Print Assumptions eq_sound.
+
+Theorem eq_refl_all : forall a, rt_eqb a a = true.
+Proof. exact rt_eqb_refl. Qed.
+Print Assumptions eq_refl_all.
+
+(* ... but == does not see HRef.external (F10) *)
+Theorem eq_flat_refuted : exists a b, rt_eqb a b = true /\ flat a <> flat b.
+Proof. exact eq_exact_refuted. Qed.
+Print Assumptions eq_flat_refuted.
+
+(* grouping while building: an empty part, and wrapping some of the parts into a nested Text,
+   change nothing in the object that is built -- hence neither == nor the rendering *)
+Theorem regroup_drop_empty : forall fuel k a e b, nonempty e = false ->
+  mk fuel k (a ++ e :: b) = mk fuel k (a ++ b).
+Proof. exact mk_drop_empty. Qed.
+Print Assumptions regroup_drop_empty.
+
+Theorem regroup_unpack_text : forall fuel k a ps b,
+  Forall (fun p => nonempty p = true) ps -> Forall (fun p => typeinfo p <> TIText) ps ->
+  mk fuel k (a ++ RText ps :: b) = mk fuel k (a ++ ps ++ b).
+Proof. exact mk_unpack_text. Qed.
+Print Assumptions regroup_unpack_text.
+
 (* non-vacuity / sanity: concrete values *)
 Example ctor_example :
   mkc KText [RStr (s2l "Multi"); RTag (s2l "em") [RStr (s2l "part")]; RText [RTag (s2l "em") [RStr (s2l " "); RStr (s2l "text!")]]]
@@ -132,3 +159,9 @@ Example ops_example :
   = Some (None, [(ACh 111%N, [MTag (s2l "em")]); (ACh 32%N, [MTag (s2l "em")]); (ACh 99%N, [MTag (s2l "em")]);
                  (ACh 97%N, [MTag (s2l "em")]); (ACh 116%N, [MTag (s2l "em")]); (ACh 120%N, []); (ACh 33%N, [])]).
 Proof. vm_compute. reflexivity. Qed.
+(* the hypotheses of regroup_unpack_text hold of the parts of every constructed Text *)
+Example regroup_example :
+  mkc KText [RStr (s2l "a"); RText [RTag (s2l "em") [RStr (s2l "b")]; RStr (s2l "c")]]
+  = mkc KText [RStr (s2l "a"); RTag (s2l "em") [RStr (s2l "b")]; RStr (s2l "c")]
+  /\ Forall (fun p => nonempty p = true) [RTag (s2l "em") [RStr (s2l "b")]; RStr (s2l "c")].
+Proof. vm_compute. split; [reflexivity|repeat constructor]. Qed.
